@@ -427,6 +427,7 @@ func genC19(c *Ctx) {
 	c.Rule = fmt.Sprintf("exhaustive, two blocks, and two named blocks: a `?`-marked / unmarked key stepped into scalars, lists of plain values, lists that begin with a null, empty lists and lists of objects that lack it (14 holders x map / struct / pointer carriers x 15 queries incl. inside a filter), and filters with null tests over lists that contain null elements (the two halves of a null test split the list). (a) every value kind (null; nil pointers; \"\" and non-empty non-numeral strings, plain and named; 0 in ten carriers incl. -0.0, decimals 0.00 and 0e5, pointer to 0; non-zero numbers; false/true plain and named; empty and non-empty slices, typed slices and Go arrays, incl. arrays holding only a zero / null / \"\" / []; empty and non-empty maps with string, named and interface keys, maps holding only a zero / null / \"\", pointers to maps; structs without fields, zero, non-zero, partly zero, behind a pointer) x the six predicates x six placements (root, map key, `?`-marked map key, struct field, `?`-marked struct field, nested key), plus an absent key with and without `?`; expected truth values from the statement's table; IsEmpty/IsNotEmpty of null and the Is*Empty family on a struct whose fields are all zero are out of domain (no expectation). (b) every path of 1..%d distinct keys x every subset of keys marked `?` x every chain document (all keys exist and end in one of 10 leaves: 7, 0, \"\", \"x\", false, true, [], [1], {}, {z:1}; or the first key that does not lead on is null / absent, at every position; every object has a sibling key) x both renderings (maps, Go structs) x {no function, each of the six predicates}; expected results from c19SpecPath on the logical document; out of domain: paths ending on an absent `?` key, IsEmpty/IsNotEmpty of null, a marked key stepped into a null that the previous key did not guard, a key stepped into a scalar. distinct = distinct (query skeleton, data shape to depth 2, outcome class); non-trivial = outcome class is not the most common one", maxKeys)
 	c19GenKinds(c)
 	c19GenPaths(c, maxKeys)
+	c19MarksOnKeysThatAreThere(c, min(maxKeys, 4))
 	c19MissingElsewhere(c)
 	c19NullElements(c)
 	c.Exhaustive = true
@@ -521,4 +522,64 @@ func c19NullElements(c *Ctx) {
 			}
 		}
 	}
+}
+
+// c19MarksOnKeysThatAreThere: the statement gives a `?` mark a meaning where the marked key is missing or null; on a key that exists
+// and holds a value that is not null the mark does nothing. So the outcome of a path - also where the statement leaves the outcome
+// itself open (a marked key stepped into a null that came from an unmarked key) - does not change when such a key gains or loses its
+// mark: whether a null may be stepped into is a matter of the key that produced it, not of some earlier key that happens to be marked.
+// Relational, on the implementation's own answers, map and struct carriers.
+func c19MarksOnKeysThatAreThere(c *Ctx, maxKeys int) {
+	rends := []struct {
+		name string
+		st   *Style
+	}{{"map", &Style{Obj: "map", Num: "f64"}}, {"struct", &Style{Obj: "struct", Num: "f64"}}}
+	answers := func(q string, data *TV, cls string) string {
+		o := c.Do(Case{Q: q, D: data, Cls: cls, InDomain: false})
+		if o.Class == "ok" {
+			return o.Logical
+		}
+		return o.Class
+	}
+	bad := 0
+	for n := 2; n <= maxKeys; n++ {
+		keys := c19Keys[:n]
+		for j := 1; j < n; j++ { // keys 0..j-1 exist and hold objects; key j is null ('z') or absent ('x')
+			for _, kind := range []byte{'z', 'x'} {
+				doc := c19Chain(keys, j, kind, nil)
+				for _, rd := range rends {
+					data := render(doc, rd.st)
+					for mask := 0; mask < 1<<n; mask++ {
+						for i := 0; i < j; i++ {
+							if mask>>i&1 == 1 {
+								continue // each pair once: the variant without the mark on key i is the reference
+							}
+							mk := func(m int) string {
+								parts := make([]string, n)
+								for t := range keys {
+									parts[t] = keys[t]
+									if m>>t&1 == 1 {
+										parts[t] += "?"
+									}
+								}
+								return "$." + strings.Join(parts, ".")
+							}
+							for _, e := range []string{"", ".IsNull()", ".IsNotNullOrEmpty()"} {
+								q0, q1 := mk(mask)+e, mk(mask|1<<i)+e
+								cls := fmt.Sprintf("marks-on-keys-that-are-there/keys%d/%s", n, rd.name)
+								a0, a1 := answers(q0, data, cls), answers(q1, data, cls)
+								if a0 != a1 {
+									bad++
+									c.addViolation(Violation{Kind: "mark-on-present-key", Query: q1, QueryHex: hx(q1), Data: data, Expected: trunc(a0, 200), Got: trunc(a1, 200), Cls: cls,
+										Why: "marking the key " + keys[i] + ", which exists and holds an object, changes the outcome: " + q0 + " gives " + trunc(a0, 60) + ", " + q1 + " gives " + trunc(a1, 60),
+										Key: "mark-on-present-key:" + strings.TrimSuffix(strings.TrimPrefix(e, "."), "()")})
+								}
+							}
+						}
+					}
+				}
+			}
+		}
+	}
+	c.Extra["marks_on_present_keys_that_mattered"] = bad
 }
